@@ -421,6 +421,7 @@ class Check:
                     "smallest_disagreements": [t for t in self.tie_breaks if t][:5],
                     "failing_input_search": "ran the property's direct oracle on the real code over this tier's generators and the disagreeing inputs: no failing input found"
                     if self.search_ran else "direct oracle on real code found no failing input on the cases explored",
+                    "search_incomplete_because": getattr(self, "harness_error", None),
                     "lean_log_tail": (lean.log[-3000:] if lean is not None else ""),
                     "seed": self.seed, "tier": self.tier,
                 }, indent=1, ensure_ascii=False, default=str))
